@@ -361,7 +361,9 @@ def run(tier, seed):
                   open(path, 'w'), indent=1, default=str)
         if v['part'] != 'waitq':
             codes = explore.confirm(PROPERTY, path)
-            if codes != [1, 1]:
+            # (a difference between configurations that follows object addresses is run-to-run nondeterminism - the very
+            # defect; a replay can never report a difference on a tree that has none, so one reproduction is conclusive)
+            if codes != [1, 1] and not (v['part'] == 'config' and 1 in codes and all(c in (0, 1) for c in codes)):
                 unconfirmed.append((path, codes))       # not believed (see vk/explore.py); counts only if nothing else confirms
                 continue
         for m in v['msgs'][:2]:
@@ -415,16 +417,17 @@ def replay(case, faults):
         # same shard is therefore run three times per configuration, all started at once: on a tree whose behaviour is a
         # function of the program all six digests are equal)
         lo, n, step = case['shard']
-        procs = [(name, spawn(case.get('tier', 'quick'), 'config', CONFIGS[name], {}, lo, n, step))
-                 for name in case['configs'] for _ in range(3)]
         digs = []
-        for name, p in procs:
-            out, err = p.communicate()
-            if p.returncode != 0:
-                return ['replay worker failed: ' + err[-300:]]
-            digs.append((name, json.loads(out)[str(case['index'])][0]))
-        if len({d for _, d in digs}) > 1:
-            return ['the digests of corpus program %d differ between runs of the same shard: %r' % (case['index'], digs)]
+        for attempt in range(4):        # (up to four rounds of six processes; the first difference ends it)
+            procs = [(name, spawn(case.get('tier', 'quick'), 'config', CONFIGS[name], {}, lo, n, step))
+                     for name in case['configs'] for _ in range(3)]
+            for name, p in procs:
+                out, err = p.communicate()
+                if p.returncode != 0:
+                    return ['replay worker failed: ' + err[-300:]]
+                digs.append((name, json.loads(out)[str(case['index'])][0]))
+            if len({d for _, d in digs}) > 1:
+                return ['the digests of corpus program %d differ between runs of the same shard: %r' % (case['index'], sorted(set(digs)))]
         return []
     import tempfile
     with tempfile.NamedTemporaryFile('w', suffix='.json', delete=False, dir='/var/tmp') as fh:
